@@ -254,7 +254,8 @@ def analyse(name: str, flags: dict[str, Any], events: list[Any], tracer: Any, g:
         # which edge leads to the missed node?
         miss_ids = {id(n) for n in missing}
         kinds = sorted({f"{type(p).__name__}.{reflect.edge_kind(path)}"
-                        for p, path, c in reflect.all_edges(g) if id(c) in miss_ids
+                        for p, path, c in reflect.all_edges(
+                            g, skip_kinds=reflect.MAPPER_INVISIBLE) if id(c) in miss_ids
                         and id(p) in visited})
         col.violation(f"C13:child-not-reached:{name}:{','.join(kinds[:6]) or 'root'}",
                       f"{name} never visits {len(missing)} node(s) the reflective walk finds "
@@ -271,12 +272,13 @@ def check_graph(desc: dict[str, Any], col: common.Collector, apps: list[Any], tr
     from vf.oracle import reflect
     g0 = graphs.build(desc)
     g = reflect.hashcons(g0)
-    walk_all = reflect.walk(g, enter_functions=True)
-    walk_nobody = reflect.walk(g, enter_functions=False)
+    walk_all = reflect.walk(g, enter_functions=True, skip_kinds=reflect.MAPPER_INVISIBLE)
+    walk_nobody = reflect.walk(g, enter_functions=False,
+                               skip_kinds=reflect.MAPPER_INVISIBLE)
     has_calls = any(isinstance(n, Call) for n in walk_all)
     has_dist = any(isinstance(n, (DistributedRecv, DistributedSendRefHolder)) for n in walk_all)
     indeg: dict[int, int] = {}
-    for p, _path, c in reflect.all_edges(g):
+    for p, _path, c in reflect.all_edges(g, skip_kinds=reflect.MAPPER_INVISIBLE):
         indeg[id(c)] = indeg.get(id(c), 0) + 1
     shared = max(indeg.values(), default=0) >= 2
     budget = 64 * len(walk_all) * 4 + 10 ** 4
@@ -324,10 +326,11 @@ def check_graph(desc: dict[str, Any], col: common.Collector, apps: list[Any], tr
                               "not return its argument", wit)
             if isinstance(res, (pt.Array, pt.AbstractResultWithNamedArrays)):
                 if flags.get("no_shape"):
-                    n_in = len(reflect.walk(g, skip_kinds=("shape",)))
-                    n_out = len(reflect.walk(res, skip_kinds=("shape",)))
+                    n_in = len(reflect.walk(g, skip_kinds=("shape", "slice_bound")))
+                    n_out = len(reflect.walk(res, skip_kinds=("shape", "slice_bound")))
                 else:
-                    n_in, n_out = len(walk_all), len(reflect.walk(res))
+                    n_in = len(walk_all)
+                    n_out = len(reflect.walk(res, skip_kinds=reflect.MAPPER_INVISIBLE))
                 if n_out > n_in and not flags.get("may_grow"):
                     col.violation(f"C13:more-distinct-nodes:{name}",
                                   f"{name}: result has {n_out} distinct nodes, input {n_in}", wit)
